@@ -26,6 +26,8 @@ def render(banks, items):
         k = it[0]
         if k == "d":
             out.append("#d%d %s" % (it[1], it[2]))
+        elif k == "dm":
+            out.append("#d%d %s" % (it[1], ", ".join(str(v) for v in it[2])))
         elif k == "res":
             out.append("#res %d" % it[1])
         elif k == "addr":
@@ -69,7 +71,11 @@ def random_case(rng):
         if c < 0.4:
             w = rng.choice([unit, unit, 2 * unit, 1, 3, 8]) if rng.random() < 0.8 else rng.choice([1, 2, 7, 9, 16])
             v = rng.randrange(0, 1 << min(w, 16))
-            items.append(("d", w, v))
+            if rng.random() < 0.3:
+                # several elements in one directive: each of them is an item of its own for the bank it lands in
+                items.append(("dm", w, [rng.randrange(0, 1 << min(w, 16)) for _ in range(rng.randrange(2, 5))]))
+            else:
+                items.append(("d", w, v))
         elif c < 0.55:
             items.append(("res", rng.choice([0, 0, 1, 2, 3])))
         elif c < 0.72:
